@@ -14,6 +14,7 @@ INVARIANT InvC12
 INVARIANT InvC14
 INVARIANT InvC15
 INVARIANT InvC09
+INVARIANT InvC17
 INVARIANT ConfigImmutable
 PROPERTY OnlyAssignChanges
 PROPERTY BadPecChangesNothing
